@@ -123,14 +123,20 @@ def inspect_phc(
     }
 
     definition_info = _parse_phc_def(chosen_definition)
+    try:
+        values = {
+            name: param.type(params[param.param.name])
+            for name, param in definition_info.parameters.items()
+        }
+    except (KeyError, ValueError):
+        # a parameter the definition requires is missing or malformed:
+        # not a record of this definition
+        return None
     return chosen_definition(
         id=id_,
         salt=salt,
         hash=hash,
-        **{
-            name: param.type(params[param.param.name])
-            for name, param in definition_info.parameters.items()
-        },
+        **values,
     )
 
 
